@@ -72,6 +72,7 @@ type FuncContract struct {
 	GhostDefs []*Clause
 	AtReturn []*Clause
 	AtCall   []*Clause // call-site assertions: `atcall <callee> <expr>` (locals and arg0..argN in scope)
+	AtAlloc  []*Clause // `atalloc <expr>`: at every make([]T, n) of the function body (alloclen = n in scope)
 	GhostLocals []*GhostLocal // history variables of the function under verification
 	AfterCall   []*Clause     // `aftercall <callee> set <ghostlocal> = <expr>` (result0.., arg0.. in scope)
 	Assumes  []*Clause
@@ -310,6 +311,12 @@ func parseContractFile(path, pkgPath string, cs *Contracts) error {
 				cl.Target = tgt
 				cl.Label = nm
 				cur.AfterCall = append(cur.AfterCall, cl)
+			case "atalloc":
+				cl, err := mkClause("atalloc", rest)
+				if err != nil {
+					return err
+				}
+				cur.AtAlloc = append(cur.AtAlloc, cl)
 			case "atcall":
 				tgt, e := splitWord(rest)
 				cl, err := mkClause("atcall", e)
